@@ -4,9 +4,11 @@ package harness
 
 import (
 	"encoding/json"
+	"sort"
 	"strings"
 	"testing"
 
+	vmcommon "github.com/ElrondNetwork/elrond-vm-common"
 	"pgregory.net/rapid"
 )
 
@@ -24,6 +26,50 @@ type historyCfg struct {
 	// templates are directed scenario prefixes that reach the labelled shapes by construction.
 	templates []func(g *Gen, run func(Op) bool)
 	templateP int // one history in templateP starts with a template (0 = never)
+	// shadowOps, when set, makes one history in shadowP run on a second ("shadow") world as well; at a drawn step the
+	// shadow world alone gets the extra operations returned here (e.g. freeze;unfreeze), after which both worlds must
+	// keep behaving identically (metamorphic relation).
+	shadowOps func(g *Gen) []Op
+	shadowP   int
+}
+
+// decodedLedger renders a shard with balance entries decoded to (value, frozen, metadata): two ledgers that differ only
+// in the byte representation of an entry (e.g. an all-zero Properties field left behind by unfreeze) render equal.
+func decodedLedger(s *Shard) string {
+	var b strings.Builder
+	addrs := make([]string, 0, len(s.Accounts))
+	for k := range s.Accounts {
+		addrs = append(addrs, k)
+	}
+	sort.Strings(addrs)
+	for _, k := range addrs {
+		a := s.Accounts[k]
+		line := sprintf("acct %x owner=%x name=%x bal=%v reward=%v", k, a.Owner, a.UserName, a.Balance, a.Reward)
+		n := 0
+		for _, sk := range sortedKeys(a.Storage) {
+			v := a.Storage[sk]
+			if strings.HasPrefix(sk, pfxESDT) && len(v) == 2 && vmcommon.IsSystemAccountAddress(a.Addr) {
+				if v[0]&1 != 0 { // a pause flag; an entry that says "not paused" is the same as no entry
+					line += sprintf(" [%q]=paused", sk)
+					n++
+				}
+				continue
+			}
+			if strings.HasPrefix(sk, pfxESDT) && len(v) != 2 {
+				if t, err := RefDecodeToken(v); err == nil && t.Value != nil {
+					line += sprintf(" [%q]={%v frozen=%v meta=%v}", sk, t.Value, isFrozenProps(t.Properties), t.Meta)
+					n++
+					continue
+				}
+			}
+			line += sprintf(" [%q]=%x", sk, v)
+			n++
+		}
+		if n > 0 || len(a.Owner) > 0 || len(a.UserName) > 0 || a.Balance.Sign() != 0 || a.Reward.Sign() != 0 {
+			b.WriteString(line + "\n")
+		}
+	}
+	return b.String()
 }
 
 func hasProp(cl Clause, props []string) bool {
@@ -82,9 +128,45 @@ func runHistories(t *testing.T, cfg historyCfg) {
 		st.AddExtra("histories", 1)
 		cut := false
 
+		var shadow *Engine
+		shadowAt := -1
+		if cfg.shadowOps != nil && cfg.shadowP > 0 && rapid.IntRange(0, cfg.shadowP-1).Draw(rt, "use-shadow") == 0 {
+			shadow = NewEngine(spec)
+			shadowAt = rapid.IntRange(1, cfg.maxSteps).Draw(rt, "shadow-at")
+			st.AddExtra("shadowed_histories", 1)
+		}
+		nops := 0
+		var shadowExtra []Op
+
 		// run executes one operation with bookkeeping; returns false when the history must stop
 		run := func(op Op) bool {
+			nops++
+			if shadow != nil && nops == shadowAt {
+				shadowExtra = cfg.shadowOps(g)
+				for _, x := range shadowExtra {
+					if r := shadow.Apply(x); r != nil && !r.Res.OK() {
+						shadow = nil // the inserted pair did not apply (e.g. already frozen): no relation to check
+						break
+					}
+				}
+				if shadow != nil {
+					st.AddExtra("shadow_pairs_inserted", 1)
+				}
+			}
 			rec := e.Apply(op)
+			if shadow != nil {
+				rec2 := shadow.Apply(op)
+				if rec != nil && rec2 != nil && nops >= shadowAt {
+					st.AddExtra("shadow_compared_calls", 1)
+					same := canonOutput(rec.Res) == canonOutput(rec2.Res) && decodedLedger(e.W.Shards[rec.Call.Shard]) == decodedLedger(shadow.W.Shards[rec.Call.Shard])
+					if !same {
+						failRapid(rt, st, cfg.prop, "shadow-history", map[string]interface{}{"world": spec, "ops": e.Ops, "shadow_at": shadowAt, "shadow_ops": shadowExtra},
+							rec.Call.Fn+"/behaviour-changed-after-flag-round-trip",
+							sprintf("after the extra operations %v on a copy of the world, %s behaves differently:\n  original: %s\n  copy:     %s\n--- original ledger\n%s--- copy ledger\n%s",
+								opsSummary(shadowExtra), rec.Call.String(), canonOutput(rec.Res), canonOutput(rec2.Res), decodedLedger(e.W.Shards[rec.Call.Shard]), decodedLedger(shadow.W.Shards[rec.Call.Shard])))
+					}
+				}
+			}
 			if rec == nil {
 				st.Label("op/" + op.Kind)
 				return true
@@ -161,6 +243,9 @@ func runHistories(t *testing.T, cfg historyCfg) {
 // replayHistory interprets a saved trace with a plain loop and reports the first clause tagged with the property.
 func replayHistory(props []string, setup func(e *Engine, st *Stats)) func(kind string, raw json.RawMessage) (string, string) {
 	return func(kind string, raw json.RawMessage) (string, string) {
+		if kind == "shadow-history" {
+			return replayShadow(raw)
+		}
 		if kind != "history" {
 			return "replay/unknown-kind", kind
 		}
@@ -188,6 +273,46 @@ func replayHistory(props []string, setup func(e *Engine, st *Stats)) func(kind s
 		}
 		return "", ""
 	}
+}
+
+func opsSummary(ops []Op) string {
+	var parts []string
+	for _, o := range ops {
+		if o.Call != nil {
+			parts = append(parts, o.Call.String())
+		} else {
+			parts = append(parts, o.Kind)
+		}
+	}
+	return strings.Join(parts, " ; ")
+}
+
+// replayShadow re-runs a saved shadow history: ops on both worlds, the extra operations on the copy at shadow_at.
+func replayShadow(raw json.RawMessage) (string, string) {
+	var doc struct {
+		World     WorldSpec `json:"world"`
+		Ops       []Op      `json:"ops"`
+		ShadowAt  int       `json:"shadow_at"`
+		ShadowOps []Op      `json:"shadow_ops"`
+	}
+	if err := json.Unmarshal(raw, &doc); err != nil {
+		return "replay/bad-file", err.Error()
+	}
+	e, sh := NewEngine(doc.World), NewEngine(doc.World)
+	for i, op := range doc.Ops {
+		if i+1 == doc.ShadowAt {
+			for _, x := range doc.ShadowOps {
+				sh.Apply(x)
+			}
+		}
+		r1, r2 := e.Apply(op), sh.Apply(op)
+		if r1 != nil && r2 != nil && i+1 >= doc.ShadowAt {
+			if canonOutput(r1.Res) != canonOutput(r2.Res) || decodedLedger(e.W.Shards[r1.Call.Shard]) != decodedLedger(sh.W.Shards[r1.Call.Shard]) {
+				return r1.Call.Fn + "/behaviour-changed-after-flag-round-trip", sprintf("%s behaves differently after %s on the copy", r1.Call.String(), opsSummary(doc.ShadowOps))
+			}
+		}
+	}
+	return "", ""
 }
 
 func isTransfer(rec *CallRecord) bool { return transferFns[rec.Call.Fn] }
